@@ -145,3 +145,56 @@ func bridgeSet(r *Registry, f reflect.Value, t Type, x any) error {
 	}
 	return nil
 }
+
+// Adjacent re-homes every non-empty []byte inside a bridged Go value into one buffer, one directly behind the other and
+// each with a capacity that reaches over everything behind it - what a caller's value looks like whose fields were cut
+// out of one received blob. It returns the buffer (the last 16 bytes are a guard no field owns) and how many fields moved.
+func Adjacent(gv reflect.Value) ([]byte, int) {
+	var fields []reflect.Value
+	var walk func(v reflect.Value, depth int)
+	walk = func(v reflect.Value, depth int) {
+		if depth > 12 || !v.IsValid() {
+			return
+		}
+		switch v.Kind() {
+		case reflect.Ptr, reflect.Interface:
+			if !v.IsNil() {
+				walk(v.Elem(), depth+1)
+			}
+		case reflect.Struct:
+			if v.Type() == Int128Type.Elem() || v.Type() == Int256Type.Elem() {
+				return
+			}
+			for i := 0; i < v.NumField(); i++ {
+				walk(v.Field(i), depth+1)
+			}
+		case reflect.Slice:
+			if v.Type().Elem().Kind() == reflect.Uint8 {
+				if v.CanSet() && v.Len() > 0 {
+					fields = append(fields, v)
+				}
+				return
+			}
+			for i := 0; i < v.Len(); i++ {
+				walk(v.Index(i), depth+1)
+			}
+		}
+	}
+	walk(gv, 0)
+	total := 0
+	for _, f := range fields {
+		total += f.Len()
+	}
+	blob := make([]byte, total+16)
+	for i := total; i < len(blob); i++ {
+		blob[i] = 0xc3
+	}
+	off := 0
+	for _, f := range fields {
+		n := f.Len()
+		copy(blob[off:], f.Bytes())
+		f.SetBytes(blob[off : off+n]) // capacity reaches to the end of the blob
+		off += n
+	}
+	return blob, len(fields)
+}
